@@ -46,7 +46,7 @@ inductive Num (K : Type)
   | int (i : Int)
   | real (x : K)
   | cplx (re im : K)
-  deriving Repr, Inhabited
+  deriving Repr, Inhabited, DecidableEq
 
 /-- Errors, reduced to what the properties distinguish. -/
 inductive SynKind
@@ -70,7 +70,7 @@ inductive SExpr (K : Type)
   | add (a b : SExpr K)
   | mul (a b : SExpr K)
   | pow (a b : SExpr K)
-  deriving Repr, Inhabited
+  deriving Repr, Inhabited, DecidableEq
 
 inductive DType | int | float | complex | object
   deriving DecidableEq, Repr, Inhabited
@@ -82,7 +82,7 @@ inductive Atom (K : Type)
   | str (s : String)
   | sym (e : SExpr K)
   | pname (s : String)     -- tdm p-array passed by name
-  deriving Repr, Inhabited
+  deriving Repr, Inhabited, DecidableEq
 
 inductive Val (K : Type)
   | atom (a : Atom K)
@@ -91,13 +91,13 @@ inductive Val (K : Type)
   | list (vs : List (Atom K))
   /-- register transform: expression over registers -/
   | rrt (e : SExpr K)
-  deriving Repr, Inhabited
+  deriving Repr, Inhabited, DecidableEq
 
 structure Op (K : Type) where
   name : String
   args : Option (List (Val K) × List (String × Val K))
   modes : List Int
-  deriving Repr, Inhabited
+  deriving Repr, Inhabited, DecidableEq
 
 structure Program (K : Type) where
   name : String
@@ -108,7 +108,7 @@ structure Program (K : Type) where
   vars : List (String × Val K)
   params : List String
   modes : List Int
-  deriving Repr, Inhabited
+  deriving Repr, Inhabited, DecidableEq
 
 /-- insertion-ordered dictionary update (Python `dict.__setitem__`) -/
 def dictSet {α} (d : List (String × α)) (k : String) (v : α) : List (String × α) :=
